@@ -33,7 +33,7 @@ MANIFEST = dict(
 
 PINNED = ["C04_phase1_canonical", "C04_phase2_sig", "C04_decode_roundtrip", "C04_canon_order_independent",
           "C04_entry_points_agree", "C04_hash_lengths", "C04_entry_points_agree_sha256", "C04_no_foreign_tx",
-          "C04_nonvacuous", "C04_anchors_type_refuted"]
+          "C04_nonvacuous", "C04_anchors_type_refuted", "C04_old_vout_truncation_refuted"]
 
 IMPORTS = "From Coq Require Import String List NArith.\nFrom VLS Require Import Base.Codec Model.Commitment Model.CommitmentCheck.\nImport List.ListNotations.\nOpen Scope N_scope.\n"
 
@@ -190,9 +190,16 @@ def run(res):
     n_viol = 0
     for c in cases:
         vs = [v for v in c["violations"] if not (c["case"]["ctype"] == "Anchors" and v["what"] == AGREE)]
+        vout = int(c["case"]["funding"].split(":")[1])
         for v in vs[:2]:
             if n_viol < 4:
-                res.violation(v["what"], {"domain": "commit", "seed": res.seed, "tier": res.tier, "case": strip(c), "detail": v})
+                what = v["what"]
+                if vout > 65535 and c.get("builder_agrees") is False:
+                    what += (" [funding output index %d does not fit the 16-bit LDK channel parameter (`vout as u16` in "
+                             "make_channel_parameters): the transaction that is built and signed spends %s:%d instead of "
+                             "the channel's funding outpoint; repair: notes/fixes/C04-funding-vout-16-bits.patch]"
+                             % (vout, c["case"]["funding"].split(":")[0][:8] + "..", vout % 65536))
+                res.violation(what, {"domain": "commit", "seed": res.seed, "tier": res.tier, "case": strip(c), "detail": v})
             n_viol += 1
     for h in herr[:2]:
         res.violation("harness error: " + h["what"], h, has_input=False)
